@@ -48,6 +48,7 @@ def message_class(message):
     return m[:110]
 # [(finding id, text, predicate(part, case))] set by run.py before exploring
 KNOWN = []
+QUIET_WORKERS = False
 
 
 # --------------------------------------------------------------------------
@@ -189,6 +190,9 @@ def _run_sharded(part, units, work, nworkers, tmpdir, per_worker_setup=None):
             code = 0
             try:
                 signal.signal(signal.SIGINT, signal.SIG_DFL)
+                if QUIET_WORKERS:
+                    dn = os.open(os.devnull, os.O_WRONLY)
+                    os.dup2(dn, 2)
                 rec = Rec(part)
                 wtmp = os.path.join(tmpdir, "wd%d" % w)
                 os.makedirs(wtmp, exist_ok=True)
@@ -295,6 +299,8 @@ class Ctx(object):
             return part
         units = list(units)
         t0 = time.time()
+        global QUIET_WORKERS
+        QUIET_WORKERS = bool(getattr(self, "quiet_workers", False))
 
         if expand is None:
             def work(unit, rec):
